@@ -164,6 +164,10 @@ def run(ctx, build):
                 d2.attrs[k] = v
             mains[DSETS[1]] = d2
             target = ft if separate else None
+            mirrored = separate and hi % 2 == 1
+            if mirrored:
+                target = ft.require_group('Measurement_000/Channel_000')
+                hist['separate_target_mirrors_source_paths'] = hist.get('separate_target_mirrors_source_paths', 0) + 1
             same_file_group = (not separate) and (hi % 5 == 4)
             if same_file_group:
                 # results kept in ANOTHER GROUP OF THE SOURCE FILE: that location, not the source's neighbourhood, holds the history
@@ -212,7 +216,7 @@ def run(ctx, build):
                 groups.append({'name': name, 'dset': 'Measurement_001/' + this_d, 'tool': this_t, 'parms': this_p, 'progress': prog,
                                'status': status, 'last_pixel': lp})
                 hist['twin_source_in_separate_target'] = hist.get('twin_source_in_separate_target', 0) + 1
-            parent = ft if separate else (target if same_file_group else grp0)
+            parent = (target if mirrored else ft) if separate else (target if same_file_group else grp0)
             if same_file_group:
                 # a complete result of the very same process BESIDE the source: it is not in the target location and must not count
                 make_group(rng, mains[this_d], N, M, this_t, this_p, None, ('complete', [1] * N, None))
@@ -240,6 +244,13 @@ def run(ctx, build):
                 continue
             dup = [g.name.split('/')[-1] for g in p.duplicate_h5_groups]
             par = [g.name.split('/')[-1] for g in p.partial_h5_groups]
+            # the user points the process at a group that is not one of its resumable groups -- with a mirrored target, a group of
+            # the SOURCE file that has the very path of the resumable group in the target: refused, and without effect
+            foreign = grp0.require_group(par[-1] if (mirrored and par) else 'not_a_results_group')
+            with common.quiet():
+                rp = procutil.refused_choice(p, foreign)
+            if rp:
+                violate('Process.use_partial_computation', 'any', 'unsuitable_group_not_refused', '%s; %s' % (rp, desc), desc)
             after_ctor = {g['name']: digest(parent[g['name']]) for g in groups}
             procutil.LOG['path'] = log
             try:
@@ -321,6 +332,13 @@ def run(ctx, build):
                         violate('Process.compute', cls, 'fresh_computation_incomplete', str(desc), desc)
                 else:
                     violate('Process.compute', cls, 'compute_raises', str(desc), desc)
+            if rname is not None:
+                try:
+                    st_ret = [int(x) for x in res['completed_positions'][()]]
+                except Exception as e:
+                    st_ret = repr(e)[:80]
+                if st_ret != [1] * N:
+                    violate('Process.compute', 'any', 'returned_group_not_marked_complete', 'completion record of %s: %s; %s' % (rname, st_ret if not isinstance(st_ret, list) else st_ret[:40], desc), desc)
             if len(groups) >= 2:
                 distinct.add(repr(desc['groups']) + repr(desc['this']) + str(override))
             if len(out.samples) < 3 and len(groups) >= 2:
